@@ -112,7 +112,7 @@ class Engine:
 
     def _decide(self, cond):
         # fingerprint that does not depend on AST ids (simplify orders commutative arguments by id)
-        h = (cond.decl().kind(), cond.num_args(), _real_len(cond.sexpr()))
+        h = (cond.decl().kind(), cond.num_args())
         if self.pos < _real_len(self.trail):
             v, _, h0 = self.trail[self.pos]
             if h0 != h:
@@ -1865,6 +1865,8 @@ def fstring(*parts):
     res = SStr([])
     for o in out:
         res = res + o
+    if all(_real_type(u) is int for u in res.items):
+        return "".join(chr(u) for u in res.items)  # nothing symbolic left (e.g. a concretised count)
     return res
 
 
